@@ -19,28 +19,12 @@
 (* SvmContracts.tla (see SvmTrace.tla).  `Lasvm.tla` extends this module   *)
 (* with an abstract model of what the optimiser does between two draws.    *)
 (***************************************************************************)
-EXTENDS Integers, Sequences, FiniteSets, TLC, Json
+EXTENDS SvmPerms, TLC, Json
 
 CONSTANTS N,        \* number of training rows
           Epochs    \* number of passes (SVCParameters.epoch)
 
 ASSUME N \in Nat \ {0} /\ Epochs \in Nat
-
-(* a visiting order: a sequence of length n that is a permutation of 0..n-1 *)
-IsPerm(p, n) ==
-    /\ Len(p) = n
-    /\ \A i \in 1..n : p[i] \in 0..(n - 1)
-    /\ \A i, j \in 1..n : i # j => p[i] # p[j]
-
-Perms(n) == {p \in [1..n -> 0..(n - 1)] : \A i, j \in 1..n : i # j => p[i] # p[j]}
-
-(* A schedule for n rows and e epochs, as recorded by the harness (a sequence
-   of sequences).  The empty schedule stands for "nothing injected: the real
-   thread_rng decided". *)
-IsSchedule(s, n, e) ==
-    \/ Len(s) = 0
-    \/ /\ Len(s) = 1 + e
-       /\ \A k \in 1..Len(s) : IsPerm(s[k], n)
 
 VARIABLE drawn      \* the orders drawn so far, oldest first
 
